@@ -11,7 +11,7 @@ PROP = 'C03'
 META = dict(
     explanation='A protocol monitor (pure pass-through MuxObservable) is inserted at every boundary the harness can name: before and after every operator of the outer pipeline, at head and tail of every inner pipeline of '
                 'group_by / roll / split / time_split and at head and tail of every tee_map branch. Each monitor keeps the set of live keys and flags: creation of a live key; item, error or completion for a key that is not live; '
-                'two live keys sharing key[0] (the slot index addressing their state); stream completion with a live key left; any event after stream completion (a boundary that is disposed before its stream completes, as happens behind the first completing branch of a nested tee_map, is not required to see a completion). The harness postcondition is "no flag at any boundary" for all N symbolic integers. '
+                'two live keys sharing key[0] (the slot index addressing their state); stream completion with a live key left; any event after stream completion (a boundary that is disposed before its stream completes, as happens behind the first completing branch of a nested tee_map, is not required to see a completion). The harness postcondition is "no flag at any boundary" for all N symbolic integers, on a first and on a second subscription of the same pipeline object. '
                 'Programs: the keyed operators over a (window, stride) grid incl. stride > window, window > N and empty sources, nestings to depth 3, groups emptied by an upstream filter, tee_map around keyed/filtering/reducing branches, seeded random nestings.',
     bounds=dict(quick='N <= 4 items (roll grid: N <= 6, (w,s) in 1..4 x 1..4), nesting depth <= 3, ~40 systematic + 40 seeded programs', thorough='N <= 6, 300 seeded programs, (w,s) in 1..5'),
     outside='boundaries inside operators that are themselves rx.pipe compositions of other operators are tapped only when the catalogue lists their parts separately; programs not enumerated; error events (C13)',
@@ -71,12 +71,17 @@ def wellformed(p):
         items = list(a)
         m = Monitor()
         real, _ = C.build(desc, tap=m.tap)
-        out = D.run_mux_done(items, real)
-        fl = m.flags()
-        if fl:
-            return fail(pipeline=C.show(desc), items=items, flags=fl[:5])
-        if not out or out[-1] != D.END:
-            return fail(pipeline=C.show(desc), items=items, flags='stream did not complete', out=out)
+        obs_ = D.src(items).pipe(rs.state.with_memory_store(list(real)))
+        for sub in (1, 2):          # the same pipeline object subscribed a second time must be as well-formed as the first run
+            for log in m.logs.values():
+                del log[:]
+            out = []
+            obs_.subscribe(on_next=out.append, on_error=lambda e: out.append(('ERR', type(e).__name__)), on_completed=lambda: out.append(D.END))
+            fl = m.flags()
+            if fl:
+                return fail(pipeline=C.show(desc), subscription=sub, items=items, flags=fl[:5])
+            if not out or out[-1] != D.END:
+                return fail(pipeline=C.show(desc), subscription=sub, items=items, flags='stream did not complete', out=out)
         return True
     return mk('wellformed', ints('v', n), pre, body)
 
